@@ -3,6 +3,7 @@
 package docgen
 
 import (
+	"math"
 	"fmt"
 	"hash/fnv"
 	"strconv"
@@ -525,5 +526,95 @@ func StringDocs() []string {
 // "large#i" numbering (append new families at the end only: known findings
 // refer to documents by index).
 func ExtraDocs() []string {
-	return append(append(NumberDocs(), MemberDocs()...), StringDocs()...)
+	out := append(append(NumberDocs(), MemberDocs()...), StringDocs()...)
+	return append(append(out, NestedKeyDocs()...), ClosureDocs()...)
+}
+
+// NestedKeyDocs: foreign members whose values hold reserved key names
+// (type, coordinates, geometry, geometries, features, properties, id, bbox)
+// at depth 1..3, as first / second / last key of an object or inside an
+// array, on every object type; Features with and without a top-level
+// properties member, before and after the foreign member.
+func NestedKeyDocs() []string {
+	reserved := []string{"type", "coordinates", "geometry", "geometries", "features", "properties", "id", "bbox"}
+	pt := Obj("Point", `"coordinates":[102,0.5]`)
+	hosts := []func(m string) string{
+		func(m string) string { return Obj("Point", `"coordinates":[102,0.5]`, m) },
+		func(m string) string { return Obj("LineString", `"coordinates":[[0,0],[1,1]]`, m) },
+		func(m string) string { return Obj("Feature", `"geometry":`+pt, m) },
+		func(m string) string { return Obj("Feature", `"geometry":`+pt, m, `"properties":{"a":1}`) },
+		func(m string) string { return Obj("Feature", `"properties":null`, `"geometry":`+pt, m) },
+		func(m string) string { return Obj("Feature", `"geometry":`+Obj("Point", `"coordinates":[1,2]`, m)) },
+		func(m string) string { return Obj("GeometryCollection", `"geometries":[`+pt+`]`, m) },
+		func(m string) string {
+			return Obj("FeatureCollection", `"features":[`+Obj("Feature", `"geometry":`+pt, m)+`]`, m)
+		},
+	}
+	var out []string
+	for _, k := range reserved {
+		q := `"` + k + `"`
+		vals := []string{
+			`{` + q + `:{"name":"x"}}`,                     // first key, depth 1
+			`{"rel":"self",` + q + `:null}`,                // second key
+			`{"a":1,"b":[2],` + q + `:"Point"}`,            // last key
+			`[{"rel":"self",` + q + `:[1,2]}]`,             // inside an array
+			`{"x":{"y":{"z":0,` + q + `:{}}}}`,             // depth 3
+			`{"s":"` + `\"` + k + `\":` + `",` + q + `:1}`, // the key text inside a string as well
+			`[[{` + q + `:true}],{"k":[{"j":1,` + q + `:false}]}]`,
+		}
+		for _, v := range vals {
+			for _, name := range []string{"crs", "links", k + "2"} {
+				m := `"` + name + `":` + v
+				for _, h := range hosts {
+					out = append(out, h(m))
+				}
+			}
+		}
+	}
+	return out
+}
+
+// ClosureDocs: rings whose last position is the first position moved by a
+// few units in the last place (1, 2, 3, 4, 8 ulps either way, on x, on y, on
+// both), spelled with 17 significant digits: such a ring is not closed. Also
+// the exactly closed ring spelled two different ways (closed).
+func ClosureDocs() []string {
+	bases := [][2]float64{{100.1, 0.3}, {0.3, 7}, {-70.5, 1.1}, {1e-7, -1e-7}, {123456.789, -0.001}, {1, 1}, {0.1, 0.2}, {179.99999999999997, -89.99999999999999}}
+	fmtf := func(v float64) string { return strconv.FormatFloat(v, 'g', 17, 64) }
+	step := func(v float64, k int) float64 {
+		for ; k > 0; k-- {
+			v = math.Nextafter(v, math.Inf(1))
+		}
+		for ; k < 0; k++ {
+			v = math.Nextafter(v, math.Inf(-1))
+		}
+		return v
+	}
+	var out []string
+	for _, b := range bases {
+		for _, k := range []int{0, 1, -1, 2, -2, 3, 4, -4, 8, -8} {
+			for axis := 0; axis < 3; axis++ {
+				lx, ly := b[0], b[1]
+				if axis == 0 || axis == 2 {
+					lx = step(lx, k)
+				}
+				if axis == 1 || axis == 2 {
+					ly = step(ly, k)
+				}
+				first := `[` + fmtf(b[0]) + `,` + fmtf(b[1]) + `]`
+				last := `[` + fmtf(lx) + `,` + fmtf(ly) + `]`
+				mid := `[` + fmtf(b[0]+1) + `,` + fmtf(b[1]) + `],[` + fmtf(b[0]+1) + `,` + fmtf(b[1]+1) + `]`
+				ring := `[` + first + `,` + mid + `,` + last + `]`
+				outer := `[[-200,-200],[300000,-200],[300000,200],[-200,200],[-200,-200]]`
+				out = append(out, Obj("Polygon", `"coordinates":[`+ring+`]`))
+				if axis == 2 {
+					out = append(out, Obj("Polygon", `"coordinates":[`+outer+`,`+ring+`]`))
+					out = append(out, Obj("MultiPolygon", `"coordinates":[[`+outer+`],[`+ring+`]]`))
+					out = append(out, Obj("Feature", `"geometry":`+Obj("Polygon", `"coordinates":[`+ring+`]`), `"properties":{}`))
+					out = append(out, Obj("GeometryCollection", `"geometries":[`+Obj("MultiPolygon", `"coordinates":[[`+outer+`,`+ring+`]]`)+`]`))
+				}
+			}
+		}
+	}
+	return out
 }
